@@ -27,15 +27,15 @@ def run(ctx):
         "ASet": "{1000,0,1,999}" if quick else "{1000,0,1,2,999}",
         "OSet": "{<<1,-1>>, <<0,1,3>>, <<1,1,0>>}" if quick
                 else "{<<1,-1>>, <<0,1,3>>, <<1,1,0>>, <<0,1,2,4>>, <<1,0,1,0>>}",
-        "ShiftSet": "{<<1,0>>, <<0,1>>, <<1,1>>, <<2,1>>}",
+        "ShiftSet": "{<<1,0>>, <<0,1>>, <<1,1>>, <<2,1>>, <<1,2,0,1,2,1,0,2,1,1,0,2>>, <<0,1,1,0,2,1,1,2>>}",
         "AlgSet": '{"row","col"}',
     }
     cases = eng.generate(ctx, consts, "non-commuting clock systems, both algorithms")
     jobs = []
     for idx, case in enumerate(cases):
-        s1, s2 = case["sh"]
+        sh = case["sh"]
         vs = []
-        if s1 == s2:
+        if len(sh) == 2 and sh[0] == sh[1]:
             vs.append({"sysmode": "static"})
         vs.append({"sysmode": "td", "subdiv": None, "start": 0.5})
         if idx % 4 == 0:
